@@ -6,6 +6,7 @@
 -/
 import Stfs.Proofs.PosOps
 import Stfs.Proofs.SysPres
+import Stfs.Gen.Fingerprints
 namespace Stfs.C04
 open Stfs Gen
 
@@ -72,5 +73,15 @@ example :
     let s := ({} : Sys).runAll f [({ now := 1, recs := [(3, 0)] }, .init [47] 511), ({ now := 2, recs := [(3, 0)] }, .mkdir [47, 97] 493)]
     s.w.idx.rows.map (fun r => (r.recd, r.blk)) = [(0, 0), (5, 0)] := by
   decide
+
+-- MIRRORS-BEGIN (maintained by bin/update-mirrors)
+/-- The parts of the model this file's theorems are about were written by hand against these
+    versions of the functions they mirror (fingerprint of each function's comment-free source,
+    regenerated on every run).  When one of them changes, this obligation fails: the change has
+    to be confirmed harmless by the correspondence, or shows up as its failing input. -/
+theorem model_mirrors_source :
+    [(n!"persisters.MetadataPersister.GetLastIndexedRecordAndBlock"), (n!"recovery.Index"), (n!"recovery.Fetch")].map Gen.fingerprintOf =
+    [some 848024407035557031, some 1657455892095054075, some 409879996791663625] := by decide
+-- MIRRORS-END
 
 end Stfs.C04
